@@ -21,6 +21,31 @@ ROOT = "/vfs"
 FD_BASE = 1_000_000
 
 
+def reset_library_caches(prefix="tola"):
+    """
+    Forget every functools cache of the library (module level functions and class attributes): what a fresh
+    interpreter would start with.  Virtual processes share one OS process here; a memo shared between them, or
+    surviving from an earlier exploration branch, would not exist between real processes.
+    """
+    import sys
+
+    n = 0
+    for name, mod in list(sys.modules.items()):
+        if mod is None or not (name == prefix or name.startswith(prefix + ".")):
+            continue
+        for obj in list(vars(mod).values()):
+            if hasattr(obj, "cache_clear"):
+                obj.cache_clear()
+                n += 1
+            elif isinstance(obj, type) and getattr(obj, "__module__", "").startswith(prefix):
+                for attr in list(vars(obj).values()):
+                    f = getattr(attr, "__func__", attr)
+                    if hasattr(f, "cache_clear"):
+                        f.cache_clear()
+                        n += 1
+    return n
+
+
 class Killed(BaseException):
     """raised inside a virtual process that has crashed / been aborted"""
 
